@@ -471,3 +471,32 @@ func TestRejectLeafSizes(t *testing.T) {
 		}
 	}
 }
+
+// TestRegressLeafSizeClasses: the pooled leaf buffers come in classes of 1, 2, 3, 4 and 5 MiB. Leaf sizes on
+// either side of every class boundary, and inside the last class, are stored and read back in every read style
+// (one full leaf plus a tail, so that a whole leaf must travel through a buffer)
+func TestRegressLeafSizeClasses(t *testing.T) {
+	const MiB = 1 << 20
+	sizes := []uint32{MiB - 1, MiB, MiB + 1, 2 * MiB, 2*MiB + 1, 3 * MiB, 3*MiB + 1, 4*MiB - 1, 4 * MiB, 4*MiB + 1, 4*MiB + 4096, 4*MiB + MiB/2, 5*MiB - 1, 5 * MiB}
+	for i, L := range sizes {
+		li := int(L)
+		size := li + 100 + i
+		{
+			c := caseT{
+				Content: hx.ContentSpec{Leaf: L, K: 1, D: 100 + i, Size: size, Seed: uint64(77 + i), Kind: 0, Period: 1},
+				Source:  []string{"onewrite", "bytesreader", "fixed"}[i%3], Chunks: []int{32 * 1024},
+				Flushes: 1 + i%4, Prefetch: i % 2, CacheL: 1 + i%3, RCW: 1 + i%2, Store: []string{"mem", "localfs"}[i%2],
+				Program: []readOp{
+					{Kind: "readat", Off: 0, Len: size},
+					{Kind: "readat", Off: int64(li - 2), Len: 50},
+					{Kind: "readat", Off: 1, Len: li - 1},
+					{Kind: "read", Bufs: []int{64 * 1024, li}},
+					{Kind: "writetoat"},
+					{Kind: "writeto"},
+				},
+			}
+			check(t, c)
+			stats.Case(fmt.Sprintf("pinned leaf class L=%d", L), true, func() interface{} { return c.sig() })
+		}
+	}
+}
